@@ -76,6 +76,16 @@ Theorem C08_lle_const_vector :
 Proof. exact @lle_const_vector. Qed.
 Print Assumptions C08_lle_const_vector.
 
+(* y^T M y = |(I-W) y|^2 + shift |y|^2 : a sum of squares plus shift |y|^2, so (over an ordered field) the
+   constant vector, for which the first part vanishes, minimises the unconstrained cost *)
+Theorem C08_lle_quadratic_form :
+  forall (F : Type) (Fo : FieldOps F) (Ff : IsField F) (N k : nat) (nbr : nat -> nat -> nat)
+         (W : mat F) (shift : F) (y : vec F),
+    dot N y (mv N (lle_M_spec N k nbr W shift) y) =
+    (sumn N (fun i => (mv N (IWm k nbr W) y i * mv N (IWm k nbr W) y i)%F) + shift * dot N y y)%F.
+Proof. exact @lle_quadratic_form. Qed.
+Print Assumptions C08_lle_quadratic_form.
+
 (* the whole routine, executable instance (certifying Gaussian elimination for ldlt().solve) *)
 Theorem C08_lle_model_correct_Qc :
   forall (N k : nat) (nbr : nat -> nat -> nat) (kern : mat Qc) (shift ts : Qc)
